@@ -52,6 +52,12 @@ def check(prog, rep):
     from .c08 import fold_rule
 
     fold_rule(prog, rep)
+    # the memory store merges on the Event objects themselves: their arithmetic is instant arithmetic only if Event keeps UTC, and
+    # a merged duration is stored as given
+    from .c13 import duration_dispatch, normalisation
+
+    normalisation(prog, rep)
+    duration_dispatch(prog, rep)
     rep.rule("PASS", "Bucket.replace_last / Bucket.insert hand the caller's event to the backend unchanged")
     for m, callee, idx, p in (("replace_last", "replace_last", 1, "event"), ("insert", "insert_one", 1, "events")):
         fi = prog.func(f"Bucket.{m}")
